@@ -183,21 +183,48 @@ func decodeProfile(raw []byte) [][]frame {
 	return out
 }
 
-// spinSite samples the process for d and returns the innermost repository
-// function present in every sample of the case goroutine (the samples that
-// contain caseFn), "deep-recursion" when most samples are truncated by the
-// profiler's depth limit, or "unknown".
+// spinSite samples the process for d and returns the repository function that
+// owns the spinning loop: the last frame of the longest common prefix
+// (outermost first) of the repository frames of every sample of the case
+// goroutine (the samples that contain caseFn); "deep-recursion" when the
+// samples are truncated by the profiler's depth limit, or "unknown".
 func spinSite(d time.Duration, caseFn string) (site string, nsamples int) {
-	var buf bytes.Buffer
-	if err := pprof.StartCPUProfile(&buf); err != nil {
-		return "unknown", 0
+	// sample in slices until enough samples exist (a loaded machine gives the
+	// process little CPU time, and the profiler ticks on CPU time), at most
+	// four times d
+	var samples [][]frame
+	enough := func() bool {
+		n, deep := 0, 0
+		for _, fs := range samples {
+			for _, f := range fs {
+				if f.fn == caseFn {
+					n++
+					break
+				}
+			}
+			if len(fs) >= 64 {
+				deep++
+			}
+		}
+		return n >= 100 || deep >= 100
 	}
-	time.Sleep(d)
-	pprof.StopCPUProfile()
-	samples := decodeProfile(buf.Bytes())
+	for round := 0; round < 4; round++ {
+		var buf bytes.Buffer
+		if err := pprof.StartCPUProfile(&buf); err != nil {
+			return "unknown", 0
+		}
+		time.Sleep(d)
+		pprof.StopCPUProfile()
+		samples = append(samples, decodeProfile(buf.Bytes())...)
+		if enough() {
+			break
+		}
+	}
 	const depthLimit = 64
-	count := map[string]int{}
-	var order []string
+	// the longest common prefix, from the outermost frame, of the repository
+	// frames of every complete sample of the case goroutine: the frames above
+	// the spinning loop are frozen, the first frame that varies is below it
+	var lcp []string
 	valid, deep := 0, 0
 	for _, fs := range samples {
 		isCase := false
@@ -212,27 +239,31 @@ func spinSite(d time.Duration, caseFn string) (site string, nsamples int) {
 			}
 			continue
 		}
-		valid++
-		seen := map[string]bool{}
-		var repo []string
-		for _, f := range fs {
-			if strings.HasPrefix(f.file, repoDir) && !seen[f.fn] {
-				seen[f.fn] = true
-				count[f.fn]++
-				repo = append(repo, f.fn)
+		var repo []string // outermost first
+		for i := len(fs) - 1; i >= 0; i-- {
+			if strings.HasPrefix(fs[i].file, repoDir) {
+				repo = append(repo, fs[i].fn)
 			}
 		}
-		if len(repo) > len(order) {
-			order = repo
+		if valid == 0 {
+			lcp = repo
+		} else {
+			n := 0
+			for n < len(lcp) && n < len(repo) && lcp[n] == repo[n] {
+				n++
+			}
+			lcp = lcp[:n]
 		}
+		valid++
 	}
 	// samples truncated by the profiler's depth limit are ignored as long as
 	// enough complete ones exist
+	if deep > valid && deep >= 30 {
+		return "deep-recursion", deep
+	}
 	if valid >= 10 {
-		for _, f := range order {
-			if count[f] == valid {
-				return normSite(f), valid
-			}
+		if len(lcp) > 0 {
+			return normSite(lcp[len(lcp)-1]), valid
 		}
 		return "unknown", valid
 	}
